@@ -634,7 +634,8 @@ pub fn progen(seed: u64) -> Program {
     let mut out = String::new();
     // templates 5..9 are structural stress shapes; the heavy ones (hundreds of macros or globals, a very
     // long main) cost 20-50 times an ordinary program and are kept rare
-    let template = match g.r.below(84) {
+    let template = match g.r.below(90) {
+        84..=89 => 11,
         80..=83 => 10,
         0..=7 => 5,
         8 | 9 => 6,
@@ -724,6 +725,53 @@ pub fn progen(seed: u64) -> Program {
         }
         out.push_str("short wide;\nchar narrow(short v) { return v; }\n");
         g.funcs.push(Func { name: "w0".into(), params: vec![], returns: false });
+    }
+    if template == 11 {
+        // counts beyond the usual (thresholds hide behind "more than N of something"): parameters, locals,
+        // string literals in one function, labels, an else-if chain, nested blocks
+        let n = *g.pick(&[9u64, 12, 17, 33, 65, 130, 260]);
+        match g.r.below(6) {
+            0 => {
+                let n = n.min(33);
+                let ps: Vec<String> = (0..n).map(|i| format!("char q{}", i)).collect();
+                let sum: Vec<String> = (0..n).map(|i| format!("q{}", i)).collect();
+                out.push_str(&format!("char many_params({}) {{ acc = {}; return acc; }}\n", ps.join(", "), sum.join(" ^ ")));
+                let args: Vec<String> = (0..n).map(|i| format!("{}", i)).collect();
+                out.push_str(&format!("void use_many_params() {{ acc = many_params({}); }}\n", args.join(", ")));
+            }
+            1 => {
+                out.push_str("void many_locals() {\n");
+                for i in 0..n {
+                    out.push_str(&format!("  char loc{} = {};\n", i, i & 255));
+                }
+                out.push_str(&format!("  acc = loc0 + loc{};\n}}\n", n - 1));
+            }
+            2 => {
+                out.push_str("void many_literals() {\n");
+                for i in 0..n {
+                    out.push_str(&format!("  sink = \"{}{}\";\n", g.pick(&WORDS), if i % 3 == 0 { String::new() } else { format!("{}", i) }));
+                }
+                out.push_str("}\n");
+            }
+            3 => {
+                out.push_str("void many_labels() {\n");
+                for i in 0..n {
+                    out.push_str(&format!("  l{}: acc++; if (acc == {}) goto l{};\n", i, i & 255, (i * 7) % n));
+                }
+                out.push_str("}\n");
+            }
+            4 => {
+                out.push_str("void else_if_chain() {\n  if (acc == 0) X = 0;\n");
+                for i in 1..n {
+                    out.push_str(&format!("  else if (acc == {}) X = {};\n", i & 255, i & 255));
+                }
+                out.push_str("  else X = 255;\n}\n");
+            }
+            _ => {
+                let n = n.min(65) as usize;
+                out.push_str(&format!("void nested_blocks() {{\n  {}acc++;{}\n}}\n", "{ char inner; inner = acc; ".repeat(n), " }".repeat(n)));
+            }
+        }
     }
     let nfun = 1 + g.r.usize_below(5);
     let mut decls: Vec<(Func, String)> = Vec::new();
